@@ -486,7 +486,9 @@ func (e *Executor) LoadDependencyOutputs(
 		)
 		loadErr := e.registry.LoadOutputs(ctx, localDep, targetResult, progress)
 
-		if loadErr != nil || localDep.SkipsCache() {
+		// A no-cache dependency has no cached outputs to load. It only needs to be re-run
+		// if it has not already been executed (and thereby loaded) in this build.
+		if loadErr != nil || (localDep.SkipsCache() && !localDep.OutputsLoaded) {
 			logger.Debugf(
 				"%s: failed to load output for dependency %s (re-rerunning): err=%v no-cache=%t",
 				target.Label,
